@@ -56,6 +56,19 @@ CLAIMED["C09"] = (
     "DESIGN.md section 3, C09",
 )
 
+CLAIMED["C06"] = (
+    "syntax-level effect analysis of every range-over-map loop (E-order, with SSA mutation summaries for callees) + nondeterminism-source census over the reachable call graph",
+    "Decides that no run-dependent quantity can enter the generated code or the report through the module's code: every map iteration is order-insensitive or sorted before use; the clock is read only by the event constructor and the configured clock; no randomness, environment, scheduling, reflective map iteration; addresses formatted into text are provably dead; the one shared counter is monotone. Right level: byte-identity over all runs cannot be sampled, but each source of run-to-run variation is a syntactic construct that can be enumerated.",
+    "Sorted serialisation inside OPA and encoding/json, and json-gold's output order, are the trusted base. " + TRUST,
+    "DESIGN.md section 3, C06",
+)
+CLAIMED["C15"] = (
+    "syntax/type-level rules on the YAML wrapper and prefix resolution (key/value discrimination, sorted key lists, context construction order, hard-coded prefix census, yaml.Node field census) + E-order",
+    "Structural necessary conditions for invariance under rewriting of the profile text: mapping lookups cannot confuse values with keys; key order is canonicalised before it reaches the translator; a prefix name never decides anything (only its binding does, defaults first, profile second); only structural fields of YAML nodes are read. Right level: each clause is a who-reads-what rule on a 200-line wrapper; the equivalence of YAML spellings themselves is yaml.v3's contract.",
+    "yaml.v3 yields the same node tree for equivalent spellings (trusted). Semantic commutativity of and/or is C01's subject. " + TRUST,
+    "DESIGN.md section 3, C15",
+)
+
 # properties without a check yet (or declined), with the reason
 NOT_APPLICABLE = {
 }
